@@ -1,8 +1,9 @@
 (* C19  Name generators never collide; random samplers stay inside their source.
-   Statements only. Tied but not proved here: the shortlex/bijective-base-26 closed form of
-   the words themselves (the model's [word] is compared with the implementation on the first
-   800 values), to_annotation, random_segment. *)
-From PV Require Import Model.AnnotationOps Proofs.GeneratorsP Check.C19.
+   Statements only. The words themselves are the bijective base-26 numerals over A..Z (the i-th
+   word has value i + 1), hence pairwise distinct -- for indices below 26^64 - 1, the fuel of the
+   model's [word] (the implementation has no such bound; the model's [word] is compared with it on
+   the first 800 values). Tied but not proved here: to_annotation, random_segment. *)
+From PV Require Import Model.AnnotationOps Proofs.GeneratorsP Proofs.WordsP Check.C19.
 
 Theorem C19_int_generator : forall n, List.length (intgen_take n) = n /\
   forall k, (k < n)%nat -> nth k (intgen_take n) (-1) = Z.of_nat k.
@@ -15,6 +16,12 @@ Proof. exact @pairwise_spec. Qed.
 Theorem C19_string_generator_without_skip : forall n,
   strgen_take n [] = map (fun k => word (Z.of_nat k)) (seq 0 n).
 Proof. exact strgen_noskip. Qed.
+Theorem C19_words_are_bijective_base_26 : forall i, 0 <= i < word_bound ->
+  valL 0 (word i) = i + 1 /\ all_caps (word i).
+Proof. exact (fun i H => conj (word_value i H) (word_caps i)). Qed.
+Theorem C19_words_never_collide : forall i j, 0 <= i < word_bound -> 0 <= j < word_bound ->
+  word i = word j -> i = j.
+Proof. exact word_inj. Qed.
 Theorem C19_string_generator_never_yields_skipped : forall n skip w,
   In w (strgen_take n skip) -> str_in w skip = false.
 Proof. exact strgen_never_yields_skipped. Qed.
@@ -68,3 +75,5 @@ Print Assumptions C19_generated_name_is_fresh.
 Print Assumptions C19_subsegment_fixed_duration.
 Print Assumptions C19_subsegment_rejects_long_duration.
 Print Assumptions C19_subsegment_min_duration.
+Print Assumptions C19_words_are_bijective_base_26.
+Print Assumptions C19_words_never_collide.
